@@ -1,5 +1,139 @@
-(* C08 property theorems: statements only (filled below). *)
-From Coq Require Import List String Bool.
-From PAFC01 Require Import ModelTree.
-From PAFC08 Require Import Model.
+(* C08 property theorems: statements only, each closed by `exact`.
+   [rt V falsy cf f n] is one round trip of the stored model n through form f (dict / pickle / database)
+   for the code described by cf (cfg_pinned = the pinned tree, cfg_fixed = with proposed_fixes/C08-*.diff);
+   [tree n] is the C01 ModelTree of n; [equiv n n'] : n' is n with parameter identities renamed injectively
+   and NOTHING else changed (shape, classes, attribute names, constants, dict constants, family / limits /
+   parameters of the prior at every place, assertions). *)
+From Coq Require Import List String Bool Permutation.
+From Coq Require Import Floats.PrimFloat.
+From PAFC01 Require Import ModelTree Model Proofs2 Proofs3.
+From PAFC08 Require Import Model Lib Proofs1 Proofs2 Proofs3 Proofs4 Witness.
 Import ListNotations.
+
+(* ---- one round trip (any of the three forms) succeeds and yields an equivalent model; PARTIAL: under
+   [guard], which excludes exactly the finding classes of the pinned code (for cf = cfg_fixed it reduces to
+   [plain]: no arithmetic prior, no component without free parameters) ---- *)
+Theorem C08_round_trip_partial : forall (V : Type) (falsy : V -> bool) (cf : cfg) (f : form) (n : snode V),
+  guard V falsy cf f n = true -> consistent V n ->
+  exists n', rt V falsy cf f n = Ok n' /\ equiv V n n'.
+Proof. exact rt_equiv. Qed.
+
+(* ---- the dict/JSON decoder (loaded_ids re-linking, fresh ids): refinement to an injective renaming;
+   afterwards every prior's message carries the prior's own id ---- *)
+Theorem C08_dict_partial : forall (V : Type) (falsy : V -> bool) (cf : cfg) (n : snode V),
+  forall_nodes V (dict_node_ok V falsy cf) n = true -> all_occs V (occ_ok V cf) n = true -> consistent V n ->
+  exists n' s, dict_rt V falsy cf n = Ok n' /\ inj_on s (node_ids V n) /\
+               smap V (forget_f V) n' = smap V (ren_f V s) n /\
+               (forall q sq, In (q, sq) (occs V n') -> ps_mid V sq = Some q).
+Proof. exact dict_total. Qed.
+
+(* ---- pickle and database forms keep the identities themselves: the ModelTree (hence paths, order,
+   ordered_ids, instances from vectors) is unchanged ---- *)
+Theorem C08_pickle_db_partial : forall (V : Type) (falsy : V -> bool) (cf : cfg) (f : form) (n : snode V),
+  f <> FDict -> guard V falsy cf f n = true ->
+  exists n', rt V falsy cf f n = Ok n' /\ tree V n' = tree V n /\ smap V (forget_f V) n' = smap V (forget_f V) n.
+Proof. exact rt_identity_tree. Qed.
+
+(* ---- repeated and mixed round trips ---- *)
+Theorem C08_iter_partial : forall (V : Type) (falsy : V -> bool) (cf : cfg) (fs : list form) (n : snode V),
+  consistent V n -> guards V falsy cf fs n ->
+  exists n', rt_seq V falsy cf fs n = Ok n' /\ equiv V n n'.
+Proof. exact rt_seq_equiv. Qed.
+
+(* the repaired code: every sequence of round trips of a plain model *)
+Theorem C08_iter_fixed : forall (V : Type) (falsy : V -> bool) (fs : list form) (n : snode V),
+  consistent V n -> plain V n = true ->
+  exists n', rt_seq V falsy cfg_fixed fs n = Ok n' /\ equiv V n n'.
+Proof. exact fixed_sequences. Qed.
+
+(* ---- what equivalence means, in the terms of C01 ---- *)
+(* same parameter paths (in walk order; as advertised by model.paths up to order) *)
+Theorem C08_paths : forall (V : Type) (n n' : snode V), equiv V n n' ->
+  map fst (walk V (tree V n')) = map fst (walk V (tree V n)) /\ Permutation (paths V (tree V n')) (paths V (tree V n)).
+Proof. exact (fun V n n' Q => conj (equiv_paths V n n' Q) (equiv_paths_sorted V n n' Q)). Qed.
+
+(* reading back never merges distinct parameters nor splits a shared one; same number of free parameters *)
+Theorem C08_sharing : forall (V : Type) (n n' : snode V) (i j : nat) (d : path * nat), equiv V n n' ->
+  i < List.length (walk V (tree V n)) -> j < List.length (walk V (tree V n)) ->
+  (snd (nth i (walk V (tree V n')) d) = snd (nth j (walk V (tree V n')) d)
+   <-> snd (nth i (walk V (tree V n)) d) = snd (nth j (walk V (tree V n)) d)).
+Proof. exact equiv_partition. Qed.
+
+Theorem C08_count : forall (V : Type) (n n' : snode V), equiv V n n' -> prior_count V (tree V n') = prior_count V (tree V n).
+Proof. exact equiv_count. Qed.
+
+(* supplying the same value for each path yields equal instances (fixed values, derived values, tuples included) *)
+Theorem C08_instance : forall (V : Type) (bin : binop -> V -> V -> V) (n n' : snode V) (pv : list (path * V)),
+  equiv V n n' -> wf V (tree V n) ->
+  inst_from_paths V bin (tree V n') pv = inst_from_paths V bin (tree V n) pv.
+Proof. exact equiv_instance. Qed.
+
+(* the ModelTree of an equivalent model is the original one renamed injectively *)
+Theorem C08_equiv_tree : forall (V : Type) (n n' : snode V), equiv V n n' ->
+  exists s, inj_on s (prior_ids V (tree V n)) /\ tree V n' = ren V s (tree V n).
+Proof. exact equiv_tree. Qed.
+
+(* a renaming that keeps the order of the model's ids keeps the parameter order *)
+Theorem C08_order : forall (V : Type) (s : nat -> nat) (n : node V),
+  mono_on s (prior_ids V n) -> ordered_ids V (ren V s n) = map s (ordered_ids V n).
+Proof. exact ordered_ids_ren. Qed.
+
+(* ---- the pinned database form in general: parameter p comes back under its MESSAGE id mu p ---- *)
+Theorem C08_db_pinned : forall (V : Type) (cf : cfg) (mu : nat -> nat) (n : snode V),
+  fix_db_id cf = false -> forall_nodes V (db_node_ok V cf) n = true ->
+  (forall p sp, In (p, sp) (occs V n) -> ps_mid V sp = Some (mu p)) ->
+  exists n', db_rt V cf n = Ok n' /\ tree V n' = ren V mu (tree V n).
+Proof. exact db_pinned_tree. Qed.
+
+(* ---- the full statement is refuted on the faithful model of the pinned code ---- *)
+Theorem C08_db_refuted :
+  exists n n', consistent float n /\ db_rt float cfg_pinned n = Ok n' /\
+               prior_count float (tree float n) = 2 /\ prior_count float (tree float n') = 1 /\ ~ equiv float n n'.
+Proof. exact db_merges_refuted. Qed.
+
+Theorem C08_db_order_refuted :
+  exists n n', db_rt float cfg_pinned n = Ok n' /\ unique_prior_paths float (tree float n) = [["m"; "a"]; ["s"]]%string
+               /\ unique_prior_paths float (tree float n') = [["s"]; ["m"; "a"]]%string.
+Proof. exact db_order_refuted. Qed.
+
+Theorem C08_pickle_then_db_refuted :
+  exists n, guard float ffalsy cfg_pinned FDb n = true /\ rt_seq float ffalsy cfg_pinned [FPickle; FDb] n = Err EAttributeError.
+Proof. exact pickle_then_db_refuted. Qed.
+
+Theorem C08_arith_names_refuted :
+  exists n, consistent float n /\
+    (exists n', dict_rt float ffalsy cfg_pinned n = Ok n' /\ map fst (walk float (tree float n)) = [["a"]; ["b"; "p"]; ["b"; "q"]]%string
+                /\ map fst (walk float (tree float n')) = [["a"]; ["b"; "left_"]; ["b"; "right_"]]%string /\ ~ equiv float n n') /\
+    (exists n', db_rt float cfg_pinned n = Ok n' /\ map fst (walk float (tree float n')) = [["a"]; ["b"; "left_"]; ["b"; "right_"]]%string
+                /\ ~ equiv float n n').
+Proof. exact arith_names_refuted. Qed.
+
+Theorem C08_zero_prior_refuted :
+  exists n n', dict_rt float ffalsy cfg_pinned n = Ok n' /\
+    ival_eqb (inst_from_paths float fbin (tree float n') [(["h"; "a"]%string, 0.5%float)])
+             (inst_from_paths float fbin (tree float n) [(["h"; "a"]%string, 0.5%float)]) = false.
+Proof. exact zero_prior_tuple_refuted. Qed.
+
+Theorem C08_zero_prior_extra_refuted :
+  exists n, dict_rt float ffalsy cfg_pinned n = Err ETypeError /\ pickle_rt float n = Ok n /\ db_rt float cfg_pinned n = Ok n.
+Proof. exact zero_prior_extra_refuted. Qed.
+
+Theorem C08_loggaussian_refuted :
+  exists n, dict_rt float ffalsy cfg_pinned n = Err ETypeError /\ dict_rt float ffalsy cfg_fixed n <> Err ETypeError.
+Proof. exact loggaussian_refuted. Qed.
+
+Theorem C08_falsy_refuted :
+  exists n n', dict_rt float ffalsy cfg_pinned n = Ok n' /\
+               snode_eqb (smap float (forget_f float) n') (smap float (forget_f float) n) = false.
+Proof. exact falsy_refuted. Qed.
+
+Theorem C08_chained_refuted :
+  db_rt float cfg_pinned w_chain = Err EAttributeError /\ guard float ffalsy cfg_pinned FDict w_chain = true.
+Proof. exact chained_refuted. Qed.
+
+Print Assumptions C08_round_trip_partial.
+Print Assumptions C08_dict_partial.
+Print Assumptions C08_iter_partial.
+Print Assumptions C08_iter_fixed.
+Print Assumptions C08_instance.
+Print Assumptions C08_db_refuted.
